@@ -212,11 +212,16 @@ theorem declLocals_exec (w : World) : ∀ (ls : List Ty) (n : Nat) (z : Zeros) (
 theorem entryParams_eq (f : Fn) :
     entryParams f = (0, .i64) :: (1, .i64) :: (f.params.zipIdx 0).map (fun p => (p.2 + 2, p.1)) := rfl
 
-theorem lower_refines_full (f : Fn) (hwt : wellTyped f = true) (args : List Nat) (hargs : ArgsOK f args)
-    (w : World) (ec mc : Nat) (fuel n : Nat) (hn : f.body.length + 3 ≤ n) :
-    run w (lowerSL f) (ec :: mc :: args) (fuel + 1) = ofSpec (runSpec f args n) ∧
-    ofSsa (run w (lowerSL f) (ec :: mc :: args) (fuel + 1)) = runSpec f args n ∧
-    runSpec f args n ≠ .exhausted := by
+/-- the environment at the entry of the block: the block parameters bound to the arguments -/
+def entryEnv (f : Fn) (ec mc : Nat) (args : List Nat) : Val → Nat :=
+  bindVals St.init.env (entryParams f) (ec :: mc :: args)
+
+/-- at the entry of the body (after the zero constants of the locals, which do not change the environment) the
+invariant holds with the frame the reference semantics starts the callee with -/
+theorem entry_inv (f : Fn) (args : List Nat) (hargs : ArgsOK f args) (ec mc : Nat) :
+    (∀ v, f.params.length + 2 ≤ v → entryEnv f ec mc args v = 0) ∧
+    Inv (f.params ++ f.locals) (initLS f).2 [] [] (args ++ f.locals.map (fun _ => 0)).toArray
+      (entryEnv f ec mc args) := by
   obtain ⟨hlen, hrange⟩ := hargs
   -- the environment at the entry of the block
   let e0 : Val → Nat := upd (upd (fun _ => 0) 0 (norm .i64 ec)) 1 (norm .i64 mc)
@@ -268,6 +273,18 @@ theorem lower_refines_full (f : Fn) (hwt : wellTyped f = true) (args : List Nat)
         obtain ⟨v, hv, _, hlt⟩ := hzero t ht
         simp only [hv, Option.getD_some]
         exact hlt
+  have heq : entryEnv f ec mc args = env1 := rfl
+  rw [heq]
+  exact ⟨henv1_hi, hinv⟩
+
+theorem lower_refines_full (f : Fn) (hwt : wellTyped f = true) (args : List Nat) (hargs : ArgsOK f args)
+    (w : World) (ec mc : Nat) (fuel n : Nat) (hn : f.body.length + 3 ≤ n) :
+    run w (lowerSL f) (ec :: mc :: args) (fuel + 1) = ofSpec (runSpec f args n) ∧
+    ofSsa (run w (lowerSL f) (ec :: mc :: args) (fuel + 1)) = runSpec f args n ∧
+    runSpec f args n ≠ .exhausted := by
+  obtain ⟨henv1_hi, hinv⟩ := entry_inv f args hargs ec mc
+  obtain ⟨hlen, hrange⟩ := hargs
+  let env1 := entryEnv f ec mc args
   have hbody : execBody w [] (entryInstrs f) (mk env1) =
       execBody w [] (lowerBody f.results.length f.body (initLS f).2) (mk env1) :=
     declLocals_exec w f.locals (f.params.length + 2) {} env1 _ henv1_hi
